@@ -508,7 +508,11 @@ Inductive op :=
 | Mature (rs : list Z)                        (* a block after the unbonding time: all entries complete *)
 | SlashVal (v ih power frac : Z)              (* Keeper.Slash for an infraction at height ih <= now *)
 | Jail (v : Z)                                (* Keeper.Jail *)
-| Unjail (v : Z).                             (* Keeper.Unjail *)
+| Unjail (v : Z)                              (* Keeper.Unjail *)
+| ExportImport (zero : bool) (ord : list Z)   (* app.ExportAppStateAndValidators(forZeroHeight = zero) + InitChain of a
+                                                 fresh app; ord = the delegators in address order (the order of
+                                                 GetAllDelegations) *)
+| Reverted (o : op).                          (* o called from a contract frame that reverts afterwards *)
 
 Definition max_entries : Z := 7.
 
@@ -607,6 +611,53 @@ Fixpoint slash_reds (v ih frac : Z) (l : list red) (s : state) (tot : Z) : res (
              end
       else slash_reds v ih frac r s tot
   end.
+
+(* ---------- app/export.go: prepForZeroHeightGenesis, the part that touches one validator ---------- *)
+(* "withdraw all delegator rewards" (at the export height), collecting what was paid *)
+Fixpoint withdraw_all (h : Z) (ord : list Z) (v : vstate) (acc : list (Z * Z)) : res (vstate * list (Z * Z)) :=
+  match ord with
+  | [] => Ok (v, acc)
+  | a :: r =>
+      match kget a (v_dels v) with
+      | None => withdraw_all h r v acc
+      | Some _ => x <- withdraw_delegation_rewards h a v ;; withdraw_all h r (fst x) ((a, snd x) :: acc)
+      end
+  end.
+
+(* "clear validator slash events / historical rewards", "reinitialize all validators" (outstanding scraps go
+   to the community pool, AfterValidatorCreated: record of period 0 with one reference, current period 1),
+   validator.UnbondingHeight = 0.  Starting infos of existing delegations are about to be overwritten; one
+   without a delegation would stay as it is. *)
+Definition reset_v (v : vstate) : vstate :=
+  set_ubh 0 (set_start (filter (fun e => negb (khas (fst e) (v_dels v))) (v_start v))
+    (set_ratio [] (set_hist [(0, 1)] (set_out 0 (set_cur 0 (set_period 1 (set_slashes [] v))))))).
+
+(* "reinitialize all delegations" with the context height set to 0: BeforeDelegationCreated
+   (IncrementValidatorPeriod) + AfterDelegationModified (initializeDelegation), once per delegation *)
+Fixpoint reinit_all (l : list Z) (v : vstate) : res vstate :=
+  match l with
+  | [] => Ok v
+  | a :: r =>
+      if khas a (v_dels v) && negb (khas a (v_start v)) then
+        v1 <- incr_period v ;; v2 <- init_delegation 0 a v1 ;; reinit_all r v2
+      else reinit_all r v
+  end.
+
+Definition export_zero_v (h : Z) (ord : list Z) (v : vstate) : res (vstate * list (Z * Z)) :=
+  x <- withdraw_all h ord v [] ;;
+  v2 <- reinit_all (ord ++ map fst (v_dels (fst x))) (reset_v (fst x)) ;;
+  Ok (v2, snd x).
+
+Fixpoint export_vals (h : Z) (ord : list Z) (l : list vstate) : res (list vstate * list (Z * Z)) :=
+  match l with
+  | [] => Ok ([], [])
+  | v :: r =>
+      x <- export_zero_v h ord v ;;
+      y <- export_vals h ord r ;;
+      Ok (fst x :: fst y, snd x ++ snd y)
+  end.
+
+Definition pay_all (l : list (Z * Z)) (s : state) : state := fold_left (fun st p => pay (fst p) (snd p) st) l s.
 
 Definition exec (s : state) (o : op) : res state :=
   match o with
@@ -713,6 +764,19 @@ Definition exec (s : state) (o : op) : res state :=
       | None => Pan
       | Some vs => if v_jailed vs then Ok (put_val v (set_jailed false vs) s) else Err
       end
+  | ExportImport zero ord =>
+      (* the export reads the committed state (height of the last block = s_height - 1); share allowances
+         are not part of any module's exported genesis and are gone afterwards *)
+      if zero then
+        x <- export_vals (s_height s - 1) ord (s_vals s) ;;
+        Ok (set_height 1 (set_allow []
+              (set_reds (map (fun e => {| r_del := r_del e; r_src := r_src e; r_dst := r_dst e; r_h := 0;
+                                         r_bal := r_bal e; r_sh := r_sh e |}) (s_reds s))
+              (set_ubds (map (fun e => {| u_del := u_del e; u_val := u_val e; u_h := 0;
+                                         u_init := u_init e; u_bal := u_bal e |}) (s_ubds s))
+              (pay_all (snd x) (set_vals (fst x) s))))))
+      else Ok (set_allow [] s)
+  | Reverted _ => Err                                (* the frame's writes are discarded *)
   end.
 
 (* a failing call leaves the state as it was *)
